@@ -503,6 +503,7 @@ class Type2Tag(Tag):
             log.debug("received nak response")
             self.target.sel_req = self.target.sdd_res[:]
             self._target = self.clf.sense(self.target)
+            self._current_sector = 0  # where an activated tag starts
             raise Type2TagCommandError(
                 INVALID_PAGE_ERROR if self.target else nfc.tag.RECEIVE_ERROR)
 
@@ -577,6 +578,7 @@ class Type2Tag(Tag):
                     # must be activated again (as in read)
                     self.target.sel_req = self.target.sdd_res[:]
                     self._target = self.clf.sense(self.target)
+                    self._current_sector = 0
                 raise Type2TagCommandError(INVALID_SECTOR_ERROR)
 
             log.debug("sector {0} is now selected".format(sector))
